@@ -10,6 +10,7 @@ import (
 
 	"github.com/zishang520/engine.io/v2/config"
 	"github.com/zishang520/engine.io/v2/engine"
+	"github.com/zishang520/engine.io/v2/transports"
 	"github.com/zishang520/engine.io/v2/types"
 	"verifrt/vsched"
 )
@@ -213,6 +214,8 @@ var causeReason = map[string]string{
 	"garbage":        "parse error",
 	"close-false":    "forced close",
 	"close-true":     "forced close",
+	"send-cb-close-true":  "forced close",
+	"send-cb-close-false": "forced close",
 	"server-close":   "forced close",
 	"ws-drop":        "transport close",
 	"wt-drop":        "transport close",
@@ -284,6 +287,12 @@ func (s *sess) action(name string) func() {
 		return func() { w.Srv.Close() }
 	case "send":
 		return func() { s.rec.Sock.Send(types.NewStringBufferString("s1"), nil, nil) }
+	case "send-cb-close-true", "send-cb-close-false":
+		// the application closes the session from the callback of one of its own sends
+		return func() {
+			discard := name == "send-cb-close-true"
+			s.rec.Sock.Send(types.NewStringBufferString("bye"), nil, func(transports.Transport) { s.rec.Sock.Close(discard) })
+		}
 	case "send2":
 		return func() {
 			s.rec.Sock.Send(types.NewStringBufferString("t1"), nil, nil)
@@ -720,6 +729,13 @@ func sessCases(thorough bool) []sessCase {
 	out = append(out, sessCase{kind: "polling", pending: true, actions: []string{"slow-post", "post-during-upload", "send"}})
 	out = append(out, sessCase{kind: "polling", pending: true, actions: []string{"slow-post", "oversized-post-during-upload"}})
 	out = append(out, sessCase{kind: "polling", pending: false, actions: []string{"slow-post", "oversized-post-during-upload"}})
+	// the application closes the session from a send callback
+	for _, kind := range []string{"polling", "websocket", "webtransport"} {
+		for _, a := range []string{"send-cb-close-true", "send-cb-close-false"} {
+			out = append(out, sessCase{kind: kind, pending: kind == "polling", actions: []string{a}})
+			out = append(out, sessCase{kind: kind, actions: []string{a}, actor: true})
+		}
+	}
 	// the client gives up its pending poll while the application's batch answers it, and polls again at once
 	out = append(out, sessCase{kind: "polling", pending: true, actions: []string{"abort-poll", "send", "repoll"}})
 	out = append(out, sessCase{kind: "polling", pending: true, actions: []string{"abort-poll", "send2", "repoll"}})
